@@ -520,7 +520,7 @@ func kernelsOf(path string) (names []string, f *elf.File, err error) {
 	return names, f, nil
 }
 
-func (r *recorder) kernels(root string, pick func(i int) bool, collect *[][]byte) {
+func (r *recorder) kernels(root string, pick func(i int, name string) bool, collect *[][]byte) {
 	var files []string
 	filepath.Walk(root, func(p string, info os.FileInfo, err error) error {
 		if err == nil && !info.IsDir() && strings.HasSuffix(p, ".hsaco") {
@@ -539,7 +539,8 @@ func (r *recorder) kernels(root string, pick func(i int) bool, collect *[][]byte
 		r.stats["hsaco_files"]++
 		for _, nm := range names {
 			k++
-			if !pick(k) {
+			rel, _ := filepath.Rel(root, p)
+			if !pick(k, rel+":"+nm) {
 				continue
 			}
 			co := insts.LoadKernelCodeObjectFromELF(f, nm)
@@ -547,7 +548,6 @@ func (r *recorder) kernels(root string, pick func(i int) bool, collect *[][]byte
 			if co.Version == insts.CodeObjectV5 {
 				c = 1
 			}
-			rel, _ := filepath.Rel(root, p)
 			r.stats["kernels"]++
 			r.stats["kernel_bytes"] += len(co.Data)
 			r.sequential(c, co.Data, rel+":"+nm, nil, collect)
@@ -582,6 +582,7 @@ func main() {
 	seed := flag.Int64("seed", 1, "seed")
 	kdir := flag.String("kernels", "", "root directory searched for .hsaco files")
 	kmod := flag.Int("kmod", 1, "decode every kmod-th kernel (offset seed)")
+	only := flag.String("only", "", "decode only the kernel of this name (file:symbol)")
 	flag.Parse()
 	log.SetOutput(io.Discard)
 
@@ -619,7 +620,12 @@ func main() {
 	}
 	if *kdir != "" {
 		off := int(*seed) % *kmod
-		r.kernels(*kdir, func(i int) bool { return i%*kmod == off }, &base)
+		r.kernels(*kdir, func(i int, name string) bool {
+			if *only != "" {
+				return name == *only
+			}
+			return i%*kmod == off
+		}, &base)
 	}
 	if *nrand > 0 {
 		if len(base) > 4000 {
